@@ -87,7 +87,7 @@ def _dir(draw):
     objs = [{"cls": draw(st.sampled_from(DIRCLASSES)), "ints": draw(st.lists(st.integers(-9, 9), min_size=40, max_size=40))}
             for _ in range(nobj)]
     ops = draw(st.lists(st.fixed_dictionaries({"o": st.integers(0, nobj - 1), "d": st.sampled_from([0, 0, 1]),
-                                               "tag": st.sampled_from([None, None, None, 1, 3])}),
+                                               "tag": st.sampled_from([None, None, None, 1, 3, 2, 7, "a", "b"])}),
                         min_size=2, max_size=8))
     return {"kind": "dir", "objs": objs, "ops": ops, "reader": draw(st.integers(0, nobj - 1)),
             "check_every_step": draw(st.booleans())}
@@ -473,8 +473,9 @@ def _check_dir(case, ctx, tmp):
             ok, got = guarded(ctx, "loaddir", lambda: reader.loaddir(dirs[di]), "dir-history", step=step)
             if not ok:
                 return False
-            if sorted(got.keys()) != sorted(model[di].keys()):
-                ctx.fail("loaddir/tags", "dir-history", got=sorted(got.keys()), want=sorted(model[di].keys()), step=step)
+            if set(got.keys()) != set(model[di].keys()):
+                ctx.fail("loaddir/tags", "dir-history", got=sorted(got.keys(), key=repr),
+                         want=sorted(model[di].keys(), key=repr), step=step)
                 return False
             for tag, oi in model[di].items():
                 obj, ex, want, cls = pool[oi]
@@ -497,17 +498,30 @@ def _check_dir(case, ctx, tmp):
     for step, op in enumerate(case["ops"]):
         oi, di = op["o"] % len(pool), op["d"]
         obj = pool[oi][0]
-        # tag: None = "next free" as documented by the code (last tag + 1); explicit tags only if they are new
+        # tag: None = an automatic tag, which must not collide with any tag in use (whatever it is, the number of
+        # tags has to grow by one and every earlier object has to stay loadable); explicit tags (numbers in any order,
+        # strings) only if they are new
         tag = op["tag"]
-        if tag is not None and (tag in model[di] or (model[di] and tag <= max(model[di]))):
+        if tag is not None and tag in model[di]:
             tag = None
-        if tag is None:
-            newtag = (list(model[di].keys())[-1] + 1) if model[di] else 1
-        else:
-            newtag = tag
         ok, _ = guarded(ctx, "savedir", lambda: obj.savedir(dirs[di], tag=tag), "dir-history", step=step)
         if not ok:
             return
+        if tag is None:
+            # whatever the automatic tag is, it has to be a new one: exactly one tag more than before
+            from quantarhei.core.parcel import load_parcel
+            ok, hashes = guarded(ctx, "savedir/read-tags", lambda: load_parcel(os.path.join(dirs[di], "_hashes_.qrp")),
+                                 "dir-history", step=step)
+            if not ok:
+                return
+            new = [t for t in hashes if t not in model[di]]
+            if len(new) != 1 or len(hashes) != len(model[di]) + 1:
+                ctx.fail("savedir/automatic-tag-is-new", "dir-history", tags_before=sorted(model[di].keys(), key=repr),
+                         tags_after=sorted(hashes.keys(), key=repr), step=step)
+                return
+            newtag = new[0]
+        else:
+            newtag = tag
         if model[di] and oi not in model[di].values():
             alternated = True
         model[di][newtag] = oi
